@@ -234,3 +234,24 @@ package httpgen
 //@   ensures boolean: headerSpec.GetType() == "boolean" ==> ((err == nil) <==> (validateBooleanHeader(value) == nil))
 //@   ensures array: headerSpec.GetType() == "array" ==> ((err == nil) <==> (validateArrayHeader(value) == nil))
 //@   ensures string: headerSpec.GetType() != "integer" && headerSpec.GetType() != "number" && headerSpec.GetType() != "boolean" && headerSpec.GetType() != "array" ==> ((err == nil) <==> (validateStringHeader(value, headerSpec.GetFormat()) == nil))
+
+// ---- mock server helpers (C20): a field with example values takes one of them, parsed to the field's type ----
+
+//@ emitted func selectStringExample(fieldPath string, defaultGenerator any) (r string)
+//@   modifies *
+//@   ensures example_taken: inDom(old(fieldExamples), fieldPath) && len(old(fieldExamples)[fieldPath]) > 0 ==> (exists k int :: 0 <= k && k < len(old(fieldExamples)[fieldPath]) && r == old(fieldExamples)[fieldPath][k])
+//@   ensures no_default_call: inDom(old(fieldExamples), fieldPath) && len(old(fieldExamples)[fieldPath]) > 0 ==> count("defaultGenerator") == old(count("defaultGenerator"))
+//@   ensures default_otherwise: !(inDom(old(fieldExamples), fieldPath) && len(old(fieldExamples)[fieldPath]) > 0) ==> count("defaultGenerator") == old(count("defaultGenerator")) + 1
+
+//@ emitted func selectIntExample(fieldPath string, defaultValue int64) (r int64)
+//@   ensures default_when_none: !(inDom(fieldExamples, fieldPath) && len(fieldExamples[fieldPath]) > 0) ==> r == defaultValue
+//@   ensures example_or_default: r == defaultValue || (exists k int :: 0 <= k && k < len(fieldExamples[fieldPath]) && result1(strconv.ParseInt(fieldExamples[fieldPath][k], 10, 64)) == nil && r == result0(strconv.ParseInt(fieldExamples[fieldPath][k], 10, 64)))
+//@   ensures example_taken: inDom(fieldExamples, fieldPath) && len(fieldExamples[fieldPath]) > 0 && (forall k int :: 0 <= k && k < len(fieldExamples[fieldPath]) ==> result1(strconv.ParseInt(fieldExamples[fieldPath][k], 10, 64)) == nil) ==> (exists k int :: 0 <= k && k < len(fieldExamples[fieldPath]) && r == result0(strconv.ParseInt(fieldExamples[fieldPath][k], 10, 64)))
+
+//@ emitted func selectBoolExample(fieldPath string, defaultValue bool) (r bool)
+//@   ensures default_when_none: !(inDom(fieldExamples, fieldPath) && len(fieldExamples[fieldPath]) > 0) ==> r == defaultValue
+//@   ensures example_taken: inDom(fieldExamples, fieldPath) && len(fieldExamples[fieldPath]) > 0 && (forall k int :: 0 <= k && k < len(fieldExamples[fieldPath]) ==> result1(strconv.ParseBool(fieldExamples[fieldPath][k])) == nil) ==> (exists k int :: 0 <= k && k < len(fieldExamples[fieldPath]) && r == result0(strconv.ParseBool(fieldExamples[fieldPath][k])))
+
+//@ emitted func selectFloatExample(fieldPath string, defaultValue float64) (r float64)
+//@   ensures default_when_none: !(inDom(fieldExamples, fieldPath) && len(fieldExamples[fieldPath]) > 0) ==> r == defaultValue
+//@   ensures example_taken: inDom(fieldExamples, fieldPath) && len(fieldExamples[fieldPath]) > 0 && (forall k int :: 0 <= k && k < len(fieldExamples[fieldPath]) ==> result1(strconv.ParseFloat(fieldExamples[fieldPath][k], 64)) == nil) ==> (exists k int :: 0 <= k && k < len(fieldExamples[fieldPath]) && r == result0(strconv.ParseFloat(fieldExamples[fieldPath][k], 64)))
